@@ -153,6 +153,7 @@ class Exprs:
             for e in envs_out[1:]:
                 acc = self.join_env(acc, e)
             env.store = acc.store
+            env.facts = acc.facts
             env.frames = acc.frames
         return result if result is not None else TOP
 
@@ -194,6 +195,7 @@ class Exprs:
             acc = self.join_env(acc, e)
             val = self.join(val, v, acc)
         env.store = acc.store
+        env.facts = acc.facts
         env.frames = acc.frames
         return val
 
@@ -323,6 +325,18 @@ class Exprs:
 
     # ---------------------------------------------------------- arithmetic
     def binop(self, op, a, b, env, node):
+        r = self._binop(op, a, b, env, node)
+        if isinstance(r, Int) and isinstance(a, Int) and isinstance(b, Int):
+            d = a.alldeps() | b.alldeps()
+            if d and r is not a and r is not b:
+                r.deps = r.deps | d
+            elif d and (r is a or r is b) and not d <= r.alldeps():
+                r2 = Int(r.lo, r.hi, r.form)
+                r2.deps = r.deps | d
+                return r2
+        return r
+
+    def _binop(self, op, a, b, env, node):
         S = self.ctx.S
         if isinstance(a, Maybe) or isinstance(b, Maybe):
             alts_a = a.alts if isinstance(a, Maybe) else [a]
